@@ -2274,3 +2274,11 @@ MUTANTS.append({"id": "C19-module-file-renamed-into-place-unchecked", "prop": "C
     (F_IM, "      if (output_code.fail()) {\n        nout << \"Error writing \" << output_code_filename << \"\\n\";\n        status = 1;\n      }\n",
            "      if (output_code.fail()) {\n        nout << \"Error writing \" << output_code_filename << \"\\n\";\n        status = 1;\n      } else {\n        rename(output_code_filename.to_os_specific().c_str(), output_code_filename.to_os_specific().c_str());\n      }\n"),
     (F_IM, "#include <algorithm>\n", "#include <algorithm>\n#include <cstdio>\n")]})
+
+# ---- R15.28 (F-C15aa: cycles of using-directives)
+M("C15-using-walk-forgets-where-it-has-been", "C15", F_SC,
+  "    CPPDeclaration *decl = (*ui)->find_symbol(name, false, visited);", "    CPPDeclaration *decl = (*ui)->find_symbol(name, false);",
+  expect="R15.28|CPPScope::find_symbol/3|")
+MUTANTS.append({"id": "C15-using-walk-does-not-stop-at-visited-scope", "prop": "C15", "expect": "R15.28|CPPScope::find_template/3|", "benign": False, "edits": [
+    (F_SC, "find_template(const string &name, bool recurse, UsingVisited &visited) const {\n  if (!visited.insert(this).second) {\n    // This scope is already being searched, further up a chain of\n    // using-directives.\n    return nullptr;\n  }\n\n",
+           "find_template(const string &name, bool recurse, UsingVisited &visited) const {\n")]})
